@@ -1234,8 +1234,9 @@ func (m *monitor) ringCaseInner(c *ringCtx) {
 					m.ringViolate(c, "retry-after-"+after, "write-blocked(key path already exists):leftover=keyring.new", map[string]interface{}{"followup_error": ferr.Error(), "followup_operation": op.String()})
 				}
 				r.Count("ring_followups_blocked_by_stale_keyring_new", 1)
-			case c.fu.kind == "retry" && outcome1 == "new" && errors.Is(ferr, api.ErrInvalidState):
-				// the first attempt took effect although an error was returned: there is nothing left to do
+			case c.fu.kind == "retry" && outcome1 == "new":
+				// the first attempt took effect although an error was returned (fault after the rename): "invalid state transition" /
+				// "concurrent keystore modification" is a legitimate answer to doing it again (as for the first layer's destroy retry)
 				r.Count("ring_retry_refused_already_done", 1)
 			default:
 				m.ringViolate(c, phaseFU, fmt.Sprintf("write-refused(%s:%s):leftover=%s", op.kind, etxt, map[bool]string{true: "keyring.new", false: "none"}[staleNew(live)]),
